@@ -9,6 +9,7 @@ import VyxalModel.Gen.Modifiers
 import VyxalModel.Model.LazyList
 import VyxalModel.Model.Input
 import VyxalModel.Model.Num
+import VyxalModel.Model.NumTheory
 import VyxalModel.Gen.Codepage
 /-! Line protocol: `cmd<TAB>argument`; one answer line per request. -/
 open Vy
@@ -99,6 +100,34 @@ def arithCmd (arg : String) : String :=
      | none => "BADOP")
   | _ => "BADARG"
 
+def showNats (l : List Nat) : String := "[" ++ ",".intercalate (l.map toString) ++ "]"
+def showOptNat : Option Nat → String
+  | some n => toString n
+  | none => "none"
+
+/-- `nt <fn> <args…>` : the reference number-theory functions -/
+def ntCmd (arg : String) : String :=
+  match arg.splitOn " " with
+  | ["isprime", n] => if NT.isPrimeB n.toNat! then "1" else "0"
+  | ["divisors", n] => showNats (NT.divisorsL n.toNat!)
+  | ["fact", n] => toString (NT.fact n.toNat!)
+  | ["choose", n, k] => toString (NT.choose n.toNat! k.toNat!)
+  | ["totient", n] => toString (NT.totient n.toNat!)
+  | ["gcd", a, b] => toString (Nat.gcd a.toNat! b.toNat!)
+  | ["lcm", a, b] => toString (NT.lcm a.toNat! b.toNat!)
+  | ["pf", n] => showNats (NT.primeFactors n.toNat!)
+  | ["pfd", n] => showNats (NT.primeFactorsDistinct n.toNat!)
+  | ["nextprime", n] => showOptNat (NT.nextPrime n.toNat!)
+  | ["prevprime", n] => showOptNat (NT.prevPrime n.toNat!)
+  | ["divsum", n] => toString (NT.divisorSum n.toNat!)
+  | ["issquare", n] => if NT.isSquareB n.toNat! then "1" else "0"
+  | ["bin", n] => showNats (NT.binDigits n.toNat!)
+  | ["r1", n] => showNats (NT.inclusiveOneRange n.toNat!)
+  | ["r1x", n] => showNats (NT.exclusiveOneRange n.toNat!)
+  | ["r0", n] => showNats (NT.inclusiveZeroRange n.toNat!)
+  | ["r0x", n] => showNats (NT.exclusiveZeroRange n.toNat!)
+  | _ => "BADARG"
+
 def answer (cmd arg : String) : String :=
   match cmd with
   | "tok" => showToks (tokenise (parseCps arg))
@@ -149,6 +178,7 @@ def answer (cmd arg : String) : String :=
   | "frombase27" => (match fromAlphabet Gen.base27 (parseCps arg) with
       | some n => toString n
       | none => "ERR")
+  | "nt" => ntCmd arg
   | "arith" => arithCmd arg
   | "ll" => llCmd arg
   | "inp" => inpCmd arg
